@@ -16,6 +16,18 @@
 //   ve o1 vn1 c1 x1 y1 o2 vn2 c2 x2 y2    visibility edge (visGraph / visOrthogGraph)
 //   ie … blocker                          invisibility edge
 //   te
+// Reroute-decision observables (Model/Reroute.lean), printed with every observation / processing point:
+//   orp <id> <n> x y …                    Obstacle::routingPolygon() of every obstacle object still alive
+//   ran <0|1|2>                           did the router process a non-empty transaction in this call
+//                                         (return value of processTransaction(); 2 = implicit call, unknown)
+//   rp <conn> <0|1>                       ConnRef::needsRepaint(): set for exactly the connectors whose
+//                                         generatePath() ran in the last processed transaction
+//   rv <conn> <n> id vn …                 Point::id / Point::vn of the points of route() (the visibility-graph
+//                                         vertices of the path: obstacle id + corner number)
+//   hk <conn> <needsReroute> <falsePath> <routeDist> <staticInvalidated>     (hook only) the state handed to
+//                                         verifRerouteSink at the top of rerouteAndCallbackConnectors
+//   pf <conn> <needsReroute> <falsePath> <routeDist>     (hook only) the same members after the transaction
+//   hook <0|1>                            whether the library was built with ADAPTAGRAMS_VERIF_REROUTE_HOOK
 // The generator keeps the *immediate-semantics* scene (what the router holds after the next
 // processTransaction) interior-disjoint with gaps >= 1 and endpoints >= 1 away from every shape:
 // otherwise "valid route" is not promised.
@@ -29,6 +41,16 @@
 using namespace Avoid;
 
 namespace {
+
+#ifdef ADAPTAGRAMS_VERIF_REROUTE_HOOK
+struct HookRec { unsigned id; bool needs, falsePath; double dist; bool staticInv; };
+const Router *g_hookRouter = nullptr;
+std::vector<HookRec> g_hookRecs;
+void rerouteSink(const Router *router, const ConnRef *conn, bool needs, bool falsePath, double dist, bool staticInv) {
+    if (router != g_hookRouter) return;                 // the fresh oracle router is not observed
+    g_hookRecs.push_back(HookRec{conn->id(), needs, falsePath, dist, staticInv});
+}
+#endif
 
 struct Rc { double x0, y0, x1, y1; };
 
@@ -52,6 +74,7 @@ struct World {
     long seq = 0;
     int dumpsLeft = 2;
     long nops = 0;
+    int ran = 2;                    // did the last call process a non-empty transaction (2 = implicit, unknown)
 };
 
 const double LO = 0, HI = 120;
@@ -108,6 +131,7 @@ void observe(World &w) {
         } else {
             printf("os %u 0 %d", o.id, (int) isActive(w, o.s)); pts(o.s->polygon()); printf("\n");
         }
+        printf("orp %u", o.id); pts(o.isJ ? ((Obstacle *) o.j)->routingPolygon() : ((Obstacle *) o.s)->routingPolygon()); printf("\n");
     }
     for (const Cn &c : w.cns) {
         VertInf *s = c.c->src(), *d = c.c->dst();
@@ -153,6 +177,25 @@ void txnPoint(World &w, vh::Rng &rng, bool forceDump) {
         printf("rt %u", c.id); pts(c.c->displayRoute()); printf("\n");
         printf("rr %u", c.id); pts(c.c->route()); printf("\n");
     }
+    for (const Cn &c : w.cns) {
+        printf("rp %u %d\n", c.id, (int) c.c->needsRepaint());
+        const PolyLine &r = c.c->route();
+        printf("rv %u %zu", c.id, r.size());
+        for (size_t i = 0; i < r.size(); ++i) printf(" %u %u", r.ps[i].id, (unsigned) r.ps[i].vn);
+        printf("\n");
+#ifdef ADAPTAGRAMS_VERIF_REROUTE_HOOK
+        printf("pf %u %d %d %s\n", c.id, (int) c.c->verifNeedsReroute(), (int) c.c->verifFalsePath(), vh::hx(c.c->verifRouteDist()).c_str());
+#endif
+    }
+#ifdef ADAPTAGRAMS_VERIF_REROUTE_HOOK
+    for (const HookRec &h : g_hookRecs)
+        printf("hk %u %d %d %s %d\n", h.id, (int) h.needs, (int) h.falsePath, vh::hx(h.dist).c_str(), (int) h.staticInv);
+    g_hookRecs.clear();
+    printf("hook 1\n");
+#else
+    printf("hook 0\n");
+#endif
+    printf("ran %d\n", w.ran);
     printf("ff %d\n", (int) all);
     fflush(stdout);
     if (all) {
@@ -202,7 +245,13 @@ void opAddShape(World &w, vh::Rng &rng, const Rc &r, unsigned id = 0, int rot = 
     w.obs.push_back(Ob{id, false, s, nullptr, r, true, false, rot});
     after(w, rng, willProcess(w));
 }
+void opProcess(World &w, vh::Rng &rng, bool forceDump = false);
 void opAddJunction(World &w, vh::Rng &rng, double x, double y) {
+    // With transactions off `new JunctionRef` runs TWO transactions: its connection pin registers itself
+    // (modifyConnectionPin -> processTransaction, which flushes whatever is still queued) before addJunction
+    // queues and processes the JunctionAdd; only the second is observable through needsRepaint(). Flush
+    // first, so that the first one has nothing to do.
+    if (!w.txn) opProcess(w, rng, false);
     unsigned id = w.nextId++;
     printf("op addJunction %u %s %s\n", id, vh::hx(x).c_str(), vh::hx(y).c_str()); fflush(stdout);
     JunctionRef *j = new JunctionRef(w.router, Point(x, y), id);
@@ -269,10 +318,11 @@ void opSetEndpoint(World &w, vh::Rng &rng, size_t ci, int which, const Point &p)
     else { c.c->setDestEndpoint(ConnEnd(p)); c.hd = true; c.d = p; }
     after(w, rng, willProcess(w));
 }
-void opProcess(World &w, vh::Rng &rng, bool forceDump = false) {
+void opProcess(World &w, vh::Rng &rng, bool forceDump) {
     printf("op processTransaction\n"); fflush(stdout);
-    w.router->processTransaction();
+    w.ran = w.router->processTransaction() ? 1 : 0;
     after(w, rng, true, forceDump);
+    w.ran = 2;
 }
 void opSetTxn(World &w, vh::Rng &rng, bool b) {
     printf("op setTransactionUse %d\n", (int) b); fflush(stdout);
@@ -643,6 +693,9 @@ static void runCase(const vh::Args &a, long k) {
         printf("cfg %s %s %d %s\n", w.orth ? "orth" : "poly", vh::hx(w.pen).c_str(), (int) w.txn, vh::hx(w.buf).c_str());
         fflush(stdout);
         w.router = mkRouter(w.orth, w.pen, w.buf);
+#ifdef ADAPTAGRAMS_VERIF_REROUTE_HOOK
+        g_hookRouter = w.router; g_hookRecs.clear(); verifRerouteSink = rerouteSink;
+#endif
         if (!w.txn) { opSetTxn(w, rng, false); }
         int maxShapes = (int) rng.range(2, 10);
         // background: a few random rectangles and connectors
